@@ -258,9 +258,6 @@ impl State for FileState {
             entry_command.put_u32_le(command_length as u32);
             entry_command.extend(command_payload);
             let command = entry_command.freeze();
-            EntryCommand::from_bytes(command.clone()).with_error_context(|error| {
-                format!("{COMPONENT} (error: {error}) - failed to parse entry command from bytes")
-            })?;
             let calculated_checksum = StateEntry::calculate_checksum(
                 index, term, leader_id, version, flags, timestamp, user_id, &context, &command,
             );
@@ -284,6 +281,12 @@ impl State for FileState {
                     entry.index,
                 ));
             }
+
+            // Parse the command only once the checksum has vouched for its bytes: the command
+            // parsers index into the payload and panic on corrupted lengths.
+            EntryCommand::from_bytes(entry.command.clone()).with_error_context(|error| {
+                format!("{COMPONENT} (error: {error}) - failed to parse entry command from bytes")
+            })?;
 
             entries.push(entry);
             if total_size == file_size {
